@@ -272,6 +272,7 @@ class State:
         self.epoch = {}      # memory root -> havoc counter
         self.frozen = {}     # frozen pseudo-root -> (original prefix, was_havocked) : snapshot of an aggregate that
                              # was copied from (aliased) and later overwritten at its source
+        self.shared = set()  # keys of aggregate fields that hold a SHARED reference (`&T`): callees cannot write through them
 
     def clone(self):
         n = State()
@@ -283,6 +284,7 @@ class State:
         n.visited = self.visited
         n.epoch = dict(self.epoch)
         n.frozen = dict(self.frozen)
+        n.shared = set(self.shared)
         return n
 
 
@@ -846,6 +848,11 @@ class Executor:
                     raise Untranslatable("struct literal field: " + part)
                 v = self.operand(st, fn, fm.group(2), frame)
                 self.put_at(st, base + ".%d" % i, v)
+                om = re.match(r"^(?:copy|move) (_\d+)$", fm.group(2).strip())
+                if om and not isinstance(v, Val) and v[0] == "ref":
+                    decl = (fn.locals.get(om.group(1)) or "").strip()
+                    if decl.startswith("&") and not re.match(r"^&(?:'\w+ )?mut ", decl):
+                        st.shared.add(base + ".%d" % i)
             return
         m = re.match(r"^\[(.*); (\d+)\]$", rhs)
         if m and int(m.group(2)) <= 64:
@@ -1017,7 +1024,16 @@ class Executor:
                     ty = None
             ty = (ty or "").strip()
             shared.append(ty.startswith("&") and not ty.startswith("&mut") and not ty.startswith("&'") or bool(re.match(r"^&'\w+ (?!mut )", ty)))
-        for d, sh in zip(desc, shared):
+        # references stored INSIDE an aggregate argument (a closure's captures, a struct of borrows): the callee may
+        # write through them as well
+        extra = []
+        for a in args:
+            if not isinstance(a, Val) and a[0] == "agg":
+                k0 = a[1].key()
+                for rk, target in st.refs.items():
+                    if (rk == k0 or rk[:len(k0) + 1] in (k0 + ".", k0 + "@")) and rk not in st.shared:
+                        extra.append(("ref", target.key()))
+        for d, sh in list(zip(desc, shared)) + [(e, False) for e in extra]:
             if sh and not limited:
                 continue
             if d[0] == "ref":
